@@ -97,6 +97,15 @@ class _P:
         self.i += 1
 
     def value(self):
+        v = self.value1()
+        if self.s.startswith("..", self.i) and not self.s.startswith("...", self.i):      # `a..b` (Debug of Range)
+            self.i += 2
+            if self.s.startswith("=", self.i): self.i += 1
+            w = self.value1()
+            return ("#range", [v, w])
+        return v
+
+    def value1(self):
         c = self.peek()
         if c == '"': return self.string()
         if c == "'": return self.char()
@@ -216,6 +225,7 @@ def to_tree(m, v):
         if v.ty in ("ArcIntern", "Arc", "Rc", "Box", "Lazy"): return to_tree(m, v.fields[0])
         if v.ty == "tuple": return ("", [to_tree(m, x) for x in v.fields])
         if v.ty == "()": return ("", [])
+        if v.ty == "Range": return ("#range", [to_tree(m, x) for x in v.fields])
         if v.tag is None and v.symtag is not None: m.force_tag(v)
         if v.ty in m.td.enums and v.tag is not None:
             return (m.td.enums[v.ty][v.tag], [to_tree(m, x) for x in v.fields])
